@@ -20,116 +20,77 @@ from ..utils import apply_blockwise
 from .base import BaseBlockCodeEncoder
 
 
-def compute_null_space_matrix(matrix: torch.Tensor) -> torch.Tensor:
-    """Compute the null space matrix of the input matrix.
+def _gf2_gauss_jordan(matrix: torch.Tensor):
+    """Gauss-Jordan elimination over GF(2).
+
+    Unit columns (columns equal to a unit vector e_i) are taken as pivots first, leftmost first,
+    so that a matrix which is already systematic on some information set is left unchanged and
+    its information positions become the pivot positions.
 
     Args:
-        matrix: Input matrix
+        matrix: Binary matrix of shape (k, n)
 
     Returns:
-        Matrix whose rows form a basis for the null space of the input matrix
+        Tuple (A, E, pivots) where A = E @ matrix (mod 2) is in reduced form, E is the invertible
+        (k, k) row-operation matrix and pivots maps a row index to its pivot column.
     """
-    # Convert to float for numerical stability
-    matrix_float = matrix.float()
-    k, n = matrix.shape
+    A = (matrix.detach().cpu().round().to(torch.int64) % 2).clone()
+    k, n = A.shape
+    E = torch.eye(k, dtype=torch.int64)
+    pivots: dict = {}
 
-    # For a generator matrix G, we need to find H such that GH^T = 0
-    # First try to find if we have a systematic form: G = [I_k | P]
-    is_systematic = True
-    identity_detected = set()
-    for i in range(k):
-        found_identity_column = False
-        for j in range(n):
-            col = matrix_float[:, j]
-            if col[i] == 1.0 and torch.sum(col) == 1.0:
-                # This is an identity column
-                identity_detected.add(j)
-                found_identity_column = True
-                break
-        if not found_identity_column:
-            is_systematic = False
+    # Pass 1: unit columns need no elimination
+    col_weight = A.sum(dim=0)
+    for j in range(n):
+        if col_weight[j] == 1:
+            i = int(torch.nonzero(A[:, j])[0])
+            if i not in pivots:
+                pivots[i] = j
+
+    # Pass 2: ordinary elimination for the rows that have no pivot yet
+    for j in range(n):
+        if len(pivots) == k:
             break
+        if j in pivots.values():
+            continue
+        candidates = [i for i in range(k) if i not in pivots and A[i, j] == 1]
+        if not candidates:
+            continue
+        i = candidates[0]
+        for other in range(k):
+            if other != i and A[other, j] == 1:
+                A[other] = (A[other] + A[i]) % 2
+                E[other] = (E[other] + E[i]) % 2
+        pivots[i] = j
 
-    if is_systematic and len(identity_detected) == k:
-        # If we found a systematic form, we can easily construct H = [-P^T | I_{n-k}]
-        # Identify the parity part (columns not in identity_detected)
-        parity_columns = [j for j in range(n) if j not in identity_detected]
+    return A, E, pivots
 
-        # Extract parity part P (k x (n-k))
-        parity_part = torch.zeros((k, n - k), dtype=matrix_float.dtype)
-        for i, col_idx in enumerate(parity_columns):
-            parity_part[:, i] = matrix_float[:, col_idx]
 
-        # Construct H = [-P^T | I_{n-k}] in GF(2), so -P^T is equivalent to P^T
-        H = torch.zeros((n - k, n), dtype=matrix_float.dtype)
+def compute_null_space_matrix(matrix: torch.Tensor) -> torch.Tensor:
+    """Compute the null space matrix of the input matrix over GF(2).
 
-        # Fill in the P^T part
-        for i in range(n - k):
-            for j in range(k):
-                H[i, list(identity_detected)[j]] = parity_part[j, i]
+    Args:
+        matrix: Input binary matrix of shape (k, n)
 
-        # Fill in the identity part
-        for i, col_idx in enumerate(parity_columns):
-            H[i, col_idx] = 1.0
+    Returns:
+        Matrix whose rows form a basis for the GF(2) null space of the input matrix. For a
+        systematic generator matrix G = [I_k | P] this is H = [P^T | I_{n-k}].
+    """
+    k, n = matrix.shape
+    A, _, pivots = _gf2_gauss_jordan(matrix)
 
-        # Verify that GH^T = 0 (in GF(2))
-        verification = torch.matmul(matrix_float, H.t()) % 2
-        if torch.all(verification == 0):
-            # Convert back to original dtype before returning
-            return H.to(matrix.dtype)
+    pivot_columns = set(pivots.values())
+    free_columns = [j for j in range(n) if j not in pivot_columns]
 
-    # If systematic form wasn't detected or verification failed, use SVD
-    U, S, V = torch.linalg.svd(matrix_float, full_matrices=True)
+    # One basis vector per free column f: e_f plus the pivot positions of the rows that use f
+    H = torch.zeros((len(free_columns), n), dtype=torch.int64)
+    for row_idx, f in enumerate(free_columns):
+        H[row_idx, f] = 1
+        for i, p in pivots.items():
+            if A[i, f] == 1:
+                H[row_idx, p] = 1
 
-    # Count non-zero singular values with small tolerance
-    tol = S.max() * max(matrix.size()) * torch.finfo(matrix_float.dtype).eps
-    rank = torch.sum(S > tol).item()
-
-    # The null space is spanned by the right singular vectors
-    # corresponding to the zero singular values
-    if rank < V.size(1):
-        null_space = V[rank:].clone()
-
-        # In GF(2), we need to ensure each element is binary
-        # Round to the nearest binary value
-        null_space = (null_space.abs() > 0.5).float()
-
-        # Ensure we have linearly independent rows
-        # and the result satisfies GH^T = 0
-        if null_space.size(0) > 0:
-            # Remove linearly dependent rows
-            reduced_null_space = torch.zeros((min(n - k, null_space.size(0)), n), dtype=matrix.dtype)
-            row_idx = 0
-
-            for i in range(null_space.size(0)):
-                # Check if current row is linearly independent from existing rows
-                if row_idx == 0 or not torch.all(torch.matmul(null_space[i], reduced_null_space[:row_idx].t().float()) % 2 == 0):
-                    if row_idx < reduced_null_space.size(0):
-                        reduced_null_space[row_idx] = null_space[i]
-                        row_idx += 1
-
-                # If we've found enough rows, we can stop
-                if row_idx == n - k:
-                    break
-
-            # Verify that the null space satisfies GH^T = 0
-            verification = torch.matmul(matrix_float, reduced_null_space.t()) % 2
-            if torch.all(verification < 0.01):  # Allow small numerical error
-                return reduced_null_space[:row_idx]
-
-    # If all else fails, fall back to a direct construction for common cases
-
-    # Repetition codes: generator matrix is a single row of all ones
-    if k == 1 and torch.all(matrix == 1.0):
-        # For a repetition code, check matrix verifies adjacent bits are equal
-        H = torch.zeros((n - 1, n), dtype=matrix.dtype)
-        for i in range(n - 1):
-            H[i, i] = 1.0
-            H[i, i + 1] = 1.0
-        return H
-
-    # If we couldn't find a valid null space, return an empty matrix
-    return torch.zeros((n - k, n), dtype=matrix.dtype)
+    return H.to(dtype=matrix.dtype, device=matrix.device)
 
 
 def compute_reduced_row_echelon_form(matrix: torch.Tensor) -> torch.Tensor:
